@@ -330,10 +330,24 @@ func equals(a, b px.Value) string {
 	return r
 }
 
+// keyErr: the INVALID_MAP_KEY report asks for the PType() of the value that has no key; when that value holds a Like type (which
+// does not resolve) the report is replaced by UNRESOLVED_TYPE_OF at the very same point.  For operands that have no key the two
+// are one observation.
+func keyErr(class string, vs ...px.Value) string {
+	if class == "reported PCORE_UNRESOLVED_TYPE_OF" {
+		for _, v := range vs {
+			if !keyableVal(v) {
+				return "reported PCORE_INVALID_MAP_KEY"
+			}
+		}
+	}
+	return class
+}
+
 // key: px.ToKey, ok=false when it reports INVALID_HASH_KEY (Sensitive …)
 func keyOf(v px.Value) (k string, out string) {
 	if err := safely(func() { k = string(px.ToKey(v)) }); err != nil {
-		return "", errClass(err)
+		return "", keyErr(errClass(err), v)
 	}
 	return k, "x" + hex.EncodeToString([]byte(k))
 }
@@ -853,7 +867,7 @@ func exec1(c px.Context, op string, args []sx.Sexp) core.Result {
 		var got px.Value
 		var found bool
 		if err := safely(func() { got, found = h.Get(k) }); err != nil {
-			out := errClass(err)
+			out := keyErr(errClass(err), k, hv)
 			if comparable(args[0]) && comparable(args[1]) && keyableVal(hv) && keyableVal(k) {
 				return core.Fail(out, "get-fault", "Hash.Get of a comparable key")
 			}
@@ -916,7 +930,7 @@ func exec1(c px.Context, op string, args []sx.Sexp) core.Result {
 		}
 		var u px.List
 		if err := safely(func() { u = a.Unique() }); err != nil {
-			out := errClass(err)
+			out := keyErr(errClass(err), av)
 			if comparable(args[0]) && keyableVal(av) {
 				return core.Fail(out, "unique-fault", "Unique over comparable values")
 			}
